@@ -134,6 +134,53 @@ func TestVerifC04NativeStaleStagedWAL(t *testing.T) {
 	}
 }
 
+// Finding C04-unpublished-full-forgotten: full -> update -> database file touched (the next
+// snapshot is full ONLY because dbModified() says so) -> full FSM snapshot released without
+// Persist (its checkpoint has folded the WAL into the database file; the deferred
+// dbModifiedTime.Store forgets that a full snapshot is due) -> unrelated update -> incremental ->
+// restart from the snapshot store: the first update is gone.
+func TestVerifC04NativeForgottenFull(t *testing.T) {
+	if os.Getenv("VERIF_NATIVE") == "" {
+		t.Skip()
+	}
+	s, done := verifC04Open(t)
+	defer done()
+
+	mustExecute(t, s, []string{
+		`CREATE TABLE foo (id INTEGER NOT NULL PRIMARY KEY, name TEXT)`,
+		`CREATE TABLE bar (id INTEGER NOT NULL PRIMARY KEY, name TEXT)`,
+		`INSERT INTO foo(id, name) VALUES(1, 'v0')`,
+		`INSERT INTO bar(id, name) VALUES(1, 'b0')`,
+	})
+	if err := s.Snapshot(0); err != nil { // full
+		t.Fatalf("snapshot 1: %s", err)
+	}
+	mustExecute(t, s, []string{`UPDATE foo SET name='v1' WHERE id=1`})
+	future := time.Now().Add(time.Hour)
+	if err := os.Chtimes(s.dbPath, future, future); err != nil {
+		t.Fatal(err)
+	}
+	if dn, err := s.snapshotDueNext(); err != nil || dn != snapshot.Full {
+		t.Fatalf("expected full due next, got %v %v", dn, err)
+	}
+	verifC04SkippedSnapshot(t, s) // full, not persisted
+	if dn, err := s.snapshotDueNext(); err != nil || dn != snapshot.Full {
+		t.Logf("due next after the unpublished full snapshot: %v (full expected)", dn)
+	}
+	mustExecute(t, s, []string{`UPDATE bar SET name='b1' WHERE id=1`})
+	if err := s.Snapshot(0); err != nil {
+		t.Fatalf("snapshot 3: %s", err)
+	}
+	live := verifC04Query(t, s, `SELECT name FROM foo WHERE id=1`)
+	verifC04Restart(t, s)
+	restored := verifC04Query(t, s, `SELECT name FROM foo WHERE id=1`)
+	t.Logf("live before restart: %s", live)
+	t.Logf("after restart      : %s", restored)
+	if live != restored {
+		t.Fatalf("C04-unpublished-full-forgotten: database restored from the snapshot store differs from the applied state\nlive:     %s\nrestored: %s", live, restored)
+	}
+}
+
 // Same class through the LOAD path: the retained staged WAL was cut from the database that the
 // LOAD replaced; it ends up on top of the full snapshot of the loaded database.
 func TestVerifC04NativeStaleStagedWALLoad(t *testing.T) {
